@@ -97,7 +97,9 @@ TABLE = {
             ('OpyVerif.Generated.ClipLoops', 'Opy.Gen', r'hyperClip_eq|boundWrites_eq|no_other_clip_override'), ('OpyVerif.Proofs.Formulas', 'Opy', r'^d_(span|norm)$'),
             ('OpyVerif.Generated.FormulasC13', 'Opy.Gen', None),
             ('OpyVerif.Proofs.C06', 'Opy', r'clipHyper'),
-            ('OpyVerif.Proofs.InitCode', 'Opy', r'code_hyperInit'), ('OpyVerif.Generated.Init', 'Opy.Gen', r'hyperInit_eq')],
+            ('OpyVerif.Proofs.InitCode', 'Opy', r'code_hyperInit'), ('OpyVerif.Generated.Init', 'Opy.Gen', r'hyperInit_eq'),
+            ('OpyVerif.Proofs.TaskRunCodeBox', 'Opy', r'code_task_evals_inUnitBox|code_hyperClip_clipsInto'),
+            ('OpyVerif.Proofs.TaskTrialCode', 'Opy', r'code_task_greedy_hyper|code_hyperClip_fixes')],
     'C14': [('OpyVerif.Proofs.C14', 'Opy.G', None),
             ('OpyVerif.Generated.Guards', 'Opy.Gen', None)],
     'C15': [('OpyVerif.Proofs.C15', 'Opy', None),
@@ -128,7 +130,7 @@ TABLE = {
             ('OpyVerif.Proofs.C06', 'Opy', r'clipPos_fixed'),
             ('OpyVerif.Proofs.Lemmas.MachineInv', 'Opy', r'inv_(apply|run|init)'),
             ('OpyVerif.Proofs.TaskTrial', 'Opy', r'^(leAll_refl|leAll_trans|leAll_set|trialStep_pop|greedyUpdate_evals_inBox|sweepPop_pop|ginv_execEv|ginv_exec|task_greedy)$'),
-            ('OpyVerif.Proofs.TaskTrialCode', 'Opy', r'code_task_greedy|code_greedySites_ok|code_trialSites_ok|code_searchClip_fixes'),
+            ('OpyVerif.Proofs.TaskTrialCode', 'Opy', r'code_task_greedy|code_greedySites_ok|code_trialSites_ok|code_searchClip_fixes|code_hyperClip_fixes'),
             ('OpyVerif.Proofs.TaskSwarm', 'Opy', r'^(memory_fits|memory_mem|leAll_map|swarm_sweep_fit|swInv_execEv|swInv_exec|task_swarm)$'),
             ('OpyVerif.Proofs.TaskSwarmCode', 'Opy', r'code_task_swarm'),
             ('OpyVerif.Proofs.TaskRunCode', 'Opy', r'code_psoSweep_isRule|code_genericSweep_isRule'),
